@@ -4,7 +4,7 @@
     (decodeAllocMax) and ids modulo 2^64 (uint64).  The model they speak about
     (Sni/Rpc.v) is the one the harness's histories are replayed on
     (Sni/RpcCorr.v). *)
-From Coq Require Import List NArith ZArith Bool String.
+From Coq Require Import List NArith ZArith Bool String Permutation.
 From Verif Require Import Lib.Bytes Sni.Wire Sni.WireProofs Sni.WireGen Gen.WireSchema.
 From Verif Require Import Sni.SchedSkel Sni.Rpc Sni.RpcProofs Sni.RpcGen Gen.TransportSkel.
 Import ListNotations.
@@ -125,6 +125,22 @@ Theorem C03_answered_call_completes : forall pre c mid vs extra post,
 Proof. exact (answered_call_completes gen_alloc_max gen_alloc_max_ok two64 two64_pos). Qed.
 Print Assumptions C03_answered_call_completes.
 
+(** Any number of outstanding calls (none of them a shutdown), the peer
+    answering each of them, the replies arriving in ANY order: every call
+    completes with exactly the fields encoded for it. *)
+Theorem C03_any_reply_order : forall cs vss frames,
+  NoDup (map pc_caller cs) ->
+  N.of_nat (List.length cs) <= two64 ->
+  Forall ordinary cs -> Forall2 reply_wf cs vss ->
+  Permutation frames (good_replies 0 cs vss) ->
+  forall j c vs, nth_error cs j = Some c -> nth_error vss j = Some vs ->
+  status (run (map (fun c => ECall c true) cs ++ map EReply frames)) (pc_caller c)
+  = Some (ROk vs).
+Proof.
+  exact (any_reply_order gen_alloc_max gen_alloc_max_ok two64 two64_pos (N.le_refl two64)).
+Qed.
+Print Assumptions C03_any_reply_order.
+
 (** The tie to the source: the functions the model was written against have
     the frozen statement skeletons, [pending] is owned by [serve], the type
     codes are the ones the model uses. *)
@@ -211,4 +227,21 @@ Proof.
   split; [vm_compute; reflexivity|]. split; [|vm_compute; reflexivity].
   unfold reply_wf. replace (pc_sch (hello 2)) with (Some [KStr]) by (vm_compute; reflexivity).
   constructor; [reflexivity|constructor].
+Qed.
+
+(** The hypotheses of [C03_any_reply_order] on three calls answered in the
+    order 2, 0, 1. *)
+Example C03_ex_reply_order_hyps :
+  let cs := [hello 10; mkCall 11 4 (assoc_str "readResponse" gen_schemas) 16; hello 12] in
+  let vss := [[VBytes [97]]; [VBytes [1;2;3]; VErr None]; [VBytes [99]]] in
+  nodupb (map pc_caller cs) = true /\
+  Forall ordinary cs /\
+  Permutation [good_reply 2 (hello 12) [VBytes [99]]; good_reply 0 (hello 10) [VBytes [97]];
+               good_reply 1 (mkCall 11 4 (assoc_str "readResponse" gen_schemas) 16) [VBytes [1;2;3]; VErr None]]
+              (good_replies 0 cs vss).
+Proof.
+  cbv zeta. split; [vm_compute; reflexivity|]. split.
+  - repeat constructor; try discriminate.
+  - cbn [good_replies N.add]. eapply perm_trans; [apply perm_swap|].
+    eapply perm_trans; [apply perm_skip, perm_swap|]. apply Permutation_refl.
 Qed.
